@@ -343,8 +343,8 @@ fn run_paths(schema: &Schema, cand: &Value) -> Vec<PathOut> {
 pub fn run(tier: Tier, filter: Filter) -> i32 {
     let start = Instant::now();
     let depth = match tier {
-        Tier::Quick => 2,
-        Tier::Thorough => 3,
+        Tier::Quick => 4,
+        Tier::Thorough => 5,
     };
     let corpus = corpus::build(depth, false);
     let st = corpus
@@ -408,6 +408,9 @@ pub fn patterns(v: &Value, s: &S, env: &Env, out: &mut Vec<&'static str>) {
         }
         (Value::Fixed(..), S::Logical(Lt::Decimal { .. }, base)) if matches!(**base, S::Bytes) => out.push("fixed-for-decimal-bytes"),
         (Value::Bytes(_), S::Logical(Lt::Decimal { .. }, _)) => out.push("bytes-for-decimal"),
+        // decimal on fixed(size): validation looks at neither the width of a Fixed nor of a Decimal value
+        (Value::Fixed(n, _), S::Logical(Lt::Decimal { .. }, base)) if matches!(&**base, S::Fixed { size, .. } if size != n) => out.push("fixed-of-another-size-for-decimal-fixed"),
+        (Value::Decimal(d), S::Logical(Lt::Decimal { .. }, base)) if matches!(&**base, S::Fixed { size, .. } if <Vec<u8>>::try_from(d).is_ok_and(|b| minimal_len(&b) > *size)) => out.push("decimal-wider-than-its-fixed"),
         (Value::String(t), S::Logical(Lt::Uuid, base)) if matches!(**base, S::String) => {
             if apache_avro::Uuid::parse_str(t).is_err() {
                 out.push("non-uuid-string");
@@ -429,6 +432,15 @@ pub fn patterns(v: &Value, s: &S, env: &Env, out: &mut Vec<&'static str>) {
         (Value::Map(m), S::Map(vt)) => m.values().for_each(|x| patterns(x, vt, env, out)),
         _ => {}
     }
+}
+
+/// Bytes the two's-complement number in `b` needs at least.
+fn minimal_len(b: &[u8]) -> usize {
+    let mut i = 0;
+    while i + 1 < b.len() && ((b[i] == 0 && b[i + 1] & 0x80 == 0) || (b[i] == 0xff && b[i + 1] & 0x80 != 0)) {
+        i += 1;
+    }
+    b.len() - i
 }
 
 /// Structural conformance of a candidate to a schema, exact kinds only (no widening, no bare values);
@@ -459,6 +471,8 @@ fn deviation_id(pats: &[&'static str], class: &str) -> Option<&'static str> {
         ("enum-out-of-range-default", _) if bad_write => Some("D-C07-enum-index-out-of-range-accepted-with-default"),
         ("fixed-for-decimal-bytes", _) if bad_write => Some("D-C07-fixed-for-decimal-bytes-written-without-length"),
         ("bytes-for-decimal", "accepted-write-error") => Some("D-C07-bytes-for-decimal-encoder-error"),
+        ("fixed-of-another-size-for-decimal-fixed", _) if bad_write => Some("D-C07-fixed-of-another-size-accepted-for-decimal-on-fixed"),
+        ("decimal-wider-than-its-fixed", "accepted-write-error") => Some("D-C07-decimal-wider-than-its-fixed-accepted-then-encoder-error"),
         ("map-for-record", "accepted-write-error") => Some("D-C07-map-for-record-encoder-error"),
         ("nullable-omitted", "accepted-write-error") => Some("D-C07-omitted-nullable-field-encoder-error"),
         ("required-missing", "accepted-write-error") => Some("D-C07-required-field-missing-accepted-when-a-nullable-field-is-present"),
